@@ -72,12 +72,13 @@ type Engine struct {
 	M     *Model
 	Steps []Step
 	// ChildBuild, if set, runs a build in a fresh process instead of in-process.
+	prevSrc    map[string]string // content of a source before its last content edit
 	ChildBuild func(req BuildReq, env []string) (BuildRes, bool)
 	// Live, when set, serves the in-process builds from one long-lived Project (Reload + Run)
-	Live *Live
-	LastRes    BuildRes
-	nAdd       int
-	preStale   map[string]string
+	Live     *Live
+	LastRes  BuildRes
+	nAdd     int
+	preStale map[string]string
 }
 
 func NewEngine(s *Session, p *Proj, g *Gen) *Engine {
@@ -273,7 +274,7 @@ func (e *Engine) atoms() []*Atom {
 var EditKinds = []string{
 	"src-content", "src-content", "src-touch", "src-rewrite-same", "src-rewrite-rename", "dir-add", "dir-del", "dir-rename",
 	"src-delete", "src-restore", "subdir-rename", "atom-lit", "atom-lit", "atom-lit", "atom-default", "tgt-extra", "comment", "comment", "docstring", "dep-add", "dep-remove", "tgt-add",
-	"tgt-remove", "output-delete", "flag", "const-add",
+	"tgt-remove", "output-delete", "flag", "const-add", "src-revert", "src-revert", "atom-revert",
 }
 
 // Edit applies one random edit of the given kind ("" = random). It returns false if the
@@ -289,6 +290,10 @@ func (e *Engine) Edit(kind string) bool {
 	case "src-content":
 		srcs := e.sortedSrcs()
 		rel := srcs[r.IntN(len(srcs))]
+		if e.prevSrc == nil {
+			e.prevSrc = map[string]string{}
+		}
+		e.prevSrc[rel] = e.P.Srcs[rel]
 		e.P.Srcs[rel] = fmt.Sprintf("edited at %d: %d\n", e.M.Clock, r.IntN(1000000))
 		delete(e.P.Missing, rel)
 		os.WriteFile(filepath.Join(root, rel), []byte(e.P.Srcs[rel]), 0o644)
@@ -296,6 +301,42 @@ func (e *Engine) Edit(kind string) bool {
 			e.relevant(t.Label())
 		}
 		e.step("edit", "src-content "+rel)
+	case "src-revert":
+		// a source file gets back the content it had before its last edit (A -> B -> A)
+		var cands []string
+		for rel := range e.prevSrc {
+			if _, ok := e.P.Srcs[rel]; ok && !e.P.Missing[rel] && e.prevSrc[rel] != e.P.Srcs[rel] {
+				cands = append(cands, rel)
+			}
+		}
+		if len(cands) == 0 {
+			return false
+		}
+		sort.Strings(cands)
+		rel := cands[r.IntN(len(cands))]
+		e.P.Srcs[rel], e.prevSrc[rel] = e.prevSrc[rel], e.P.Srcs[rel]
+		os.WriteFile(filepath.Join(root, rel), []byte(e.P.Srcs[rel]), 0o644)
+		for _, t := range e.srcTargets(rel) {
+			e.relevant(t.Label())
+		}
+		e.step("edit", "src-revert "+rel)
+	case "atom-revert":
+		// a constant / literal gets back the value it had before its last edit
+		var cands []*Atom
+		for _, a := range e.atoms() {
+			if a.PrevLit != "" && a.PrevLit != a.Lit {
+				cands = append(cands, a)
+			}
+		}
+		if len(cands) == 0 {
+			return false
+		}
+		a := cands[r.IntN(len(cands))]
+		old := a.Lit
+		a.Lit, a.PrevLit = a.PrevLit, a.Lit
+		e.atomEdited(a)
+		e.P.WriteFile(root, a.File)
+		e.step("edit", fmt.Sprintf("atom-revert %s|%s: %s -> %s", a.File, a.Name, trunc(old), trunc(a.Lit)))
 	case "subdir-rename":
 		// rename a sub-directory inside a source directory (its files keep names and contents)
 		var subs []string
@@ -455,6 +496,9 @@ func (e *Engine) Edit(kind string) bool {
 		}
 		a := cands[r.IntN(len(cands))]
 		old := a.Lit
+		if kind == "atom-lit" {
+			a.PrevLit = a.Lit
+		}
 		switch {
 		case kind == "atom-default":
 			old = a.Def
@@ -832,6 +876,14 @@ func (e *Engine) consumeLog(st *Step, from int, always bool) {
 			mt.LastFail = e.M.tick()
 		}
 	}
+}
+
+// GC loads the project (fully, or preferring the index as `dawn gc` does) and collects garbage. A collection must not
+// change what later builds do, so the model is not told anything.
+func (e *Engine) GC(preferIndex bool) BuildRes {
+	res := Build(BuildReq{Root: e.S.Root, GC: true, PreferIndex: preferIndex, Args: e.P.Args})
+	e.step("gc", fmt.Sprintf("prefer-index=%v %s%s", preferIndex, res.LoadErr, res.GCErr))
+	return res
 }
 
 // Outputs returns root-relative generated files of the closure of target.
